@@ -206,6 +206,28 @@ func c15SessionSpec(kind string, n int) (gen func(i int) (string, string), count
 			}
 			return "g(7)", "> 7\n"
 		}, 4
+	case "global-first-mentioned-in-crossing-statement":
+		// a top-level conditional of about n instructions that is the first statement to mention the global `total`;
+		// whether it is accepted or refused, globals bound afterwards must be themselves
+		return func(i int) (string, string) {
+			switch i {
+			case 0:
+				return "if 1 < 2 {\ntotal = 1\n" + rep("total = total\n", n) + "}", ""
+			case 1:
+				return "limit = 100", "> 100\n"
+			case 2:
+				return "other = \"o\"", "> \"o\"\n"
+			case 3:
+				return "pad = 7 + 8 * 9", "> 79\n"
+			case 4:
+				return "total = 5", "> 5\n"
+			case 5:
+				return "[limit, total, other, pad]", "> [100, 5, o, 79]\n"
+			case 6:
+				return "total = total + limit", "> 105\n"
+			}
+			return "[limit, total, other, pad]", "> [100, 105, o, 79]\n"
+		}, 8
 	case "locals":
 		return func(i int) (string, string) {
 			if i == 0 {
@@ -397,6 +419,7 @@ func c15Run(w *core.W) {
 		}
 	}
 	// (iii) sessions
+	w.NoCur = false // sessions run the VM: record the current item
 	w.Family("size-crossing-sessions")
 	type job struct {
 		kind string
@@ -423,6 +446,9 @@ func c15Run(w *core.W) {
 		for _, n := range sizes {
 			jobs = append(jobs, job{"after-companion:" + k, n})
 		}
+	}
+	for _, n := range sizes {
+		jobs = append(jobs, job{"global-first-mentioned-in-crossing-statement", n})
 	}
 	for _, j := range jobs {
 		b, _ := json.Marshal(c15Session{j.kind, j.n})
